@@ -536,7 +536,7 @@ Proof.
 Qed.
 
 Theorem configured_name_never_counted evs s :
-  In s (st_stats (run_log evs)) ->
+  In s (all_stats (run_log evs)) ->
   exists ev q, In (LQuery ev q) evs /\ s = stat_entry ev q /\
     fst (fst s) = LogPolicy.normalize (q_name q) /\
     forall entries, stats_engine_is ev entries -> escapes entries (fst (fst s)).
